@@ -15,7 +15,7 @@ SPEC = dict(
           "non-trivial+distinct = distinct (len before, len after, zero-padded?, pattern) transitions"),
     assumptions=["R3 (ref.next_build) is the README's lexical-id successor; ids that are all 9s are the documented "
                  "maximum and are only required not to be 'bumped' to a smaller/equal value"],
-    required=["single_steps", "chain_steps", "expansion:4->5", "expansion:5->6", "expansion:6->7",
+    required=["single_steps", "chain_steps", "expansion:4->5", "expansion:5->6", "expansion:6->7", "expansion:7->8",
               "chain_steps_with_other_flags", "update_chain_steps", "update_chain_untagged_releases"],
     anchors=[("v2version", "_incr_numeric"), ("v2version", "parse_field_values_to_vinfo"), ("v2patterns", "_fmt_bld")],
     exhaustive={"quick": True, "thorough": True},
@@ -41,7 +41,8 @@ def cases(ctx):
         w = R.choice([6, 7])
         yield {"kind": "step", "start": str(R.randint(0, 10 ** w - 1)).zfill(w), "pat": R.randrange(len(PATTERNS))}
     # fixed chains that cross every digit-length expansion, whatever the seed
-    fixed = ["1", "0001", "0990", "1990", "19990", "199990", "8990", "98990", "00001", "09"]
+    fixed = ["1", "0001", "0990", "1990", "19990", "199990", "8990", "98990", "00001", "09", "1999990", "0999990",
+             "8999990", "4999990"]
     for k, b in enumerate(fixed):
         if ctx.mine(k):
             yield {"kind": "chain", "start": b, "steps": 60, "pat": k % len(PATTERNS), "bld": False}
